@@ -312,6 +312,23 @@ func genC03(r *Rng, tier string) []Case {
 		}
 		cs = append(cs, Case{"entries_order", ents})
 	}
+	// groups the writer must refuse before looking at coverage: no / unparsable / overflowing Variants value,
+	// unparsable or empty Variant-Key, Variants values that differ between the members
+	many := []string{}
+	for a := 0; a < 65; a++ {
+		many = append(many, fmt.Sprintf("A%d;x;y", a))
+	}
+	ent := func(v, k string) Sx { return L(B([]byte(v)), B([]byte(k))) }
+	for _, g := range [][]Sx{
+		{ent("", "x"), ent("", "y")}, {ent("", ""), ent("A;x;y", "x")}, {ent("A;x;y", "x"), ent("", "y")},
+		{ent("A;;", "x"), ent("A;;", "y")}, {ent("\"A;x;y", "x"), ent("\"A;x;y", "y")}, {ent("A;x;y,", "x"), ent("A;x;y,", "y")}, {ent("A", "x"), ent("A", "y")},
+		{ent(strings.Join(many, ", "), "x"), ent(strings.Join(many, ", "), "y")},
+		{ent("A;x;y", "\"x"), ent("A;x;y", "y")}, {ent("A;x;y", "x;;"), ent("A;x;y", "y")}, {ent("A;x;y", ""), ent("A;x;y", "y")}, {ent("A;x;y", "x,"), ent("A;x;y", "y")},
+		{ent("A;x;y", "x"), ent("A;x;y", "*eQ==*")}, {ent("A;x;y", "x"), ent("A;x;y", "1")}, {ent("A;x;y", "x"), ent("A; x; y", "y")}, {ent("A;x;y", "x"), ent("a;x;y", "y")},
+		{ent("A;x;y", "x")}, {ent("A;x;y", "x;y")}, {ent("A;x;y, B;p", "x"), ent("A;x;y, B;p", "y;p")},
+	} {
+		cs = append(cs, Case{"entries_order", g})
+	}
 	return cs
 }
 
@@ -370,13 +387,13 @@ func genC04(r *Rng, tier string) []Case {
 		for k := -1; k <= total; k++ {
 			cs = append(cs, Case{"cw_writes", []Sx{L(chunks...), Zi(int64(k)), Zi(int64(r.Intn(2)))}})
 			if i%2 == 0 { // the same through ReadFrom's own copy loop, the source ending in EOF or in an error
-				cs = append(cs, Case{"cw_readfrom", []Sx{L(chunks...), Zi(int64(k)), Zi(int64(r.Intn(2))), Zi(int64(r.Intn(3)))}})
+				cs = append(cs, Case{"cw_readfrom", []Sx{L(chunks...), Zi(int64(k)), Zi(int64(r.Intn(4))), Zi(int64(r.Intn(3)))}})
 			}
 		}
 	}
 	// a source chunk larger than ReadFrom's 32 KiB buffer
 	for _, k := range []int{-1, 0, 1, 32767, 32768, 32769, 70000, 99999, 100000} {
-		cs = append(cs, Case{"cw_readfrom", []Sx{L(B(r.Bytes(100000))), Zi(int64(k)), Zi(int64(r.Intn(2))), Zi(0)}})
+		cs = append(cs, Case{"cw_readfrom", []Sx{L(B(r.Bytes(100000))), Zi(int64(k)), Zi(int64(r.Intn(4))), Zi(0)}})
 	}
 	return cs
 }
@@ -394,9 +411,11 @@ type bbEntry struct {
 	variants []byte
 	locs     [][2]uint64
 	count    *uint64 // value-array count override
+	tail     []byte  // raw bytes after the locations (half a pair, a foreign item)
 }
 
 type bb struct {
+	magic        []byte // header + version magic override
 	ver          bver.Version
 	primary      string
 	entries      []bbEntry
@@ -469,6 +488,7 @@ func (b *bb) build() []byte {
 			idx = append(idx, cborUint(l[0])...)
 			idx = append(idx, cborUint(l[1])...)
 		}
+		idx = append(idx, e.tail...)
 	}
 	secs := map[string]bbSection{"index": {name: "index", body: idx}, "responses": {name: "responses", body: resp}}
 	for _, s := range b.extra {
@@ -486,10 +506,15 @@ func (b *bb) build() []byte {
 	if b.ver == bver.VersionB1 {
 		out = append(out, bver.HeaderMagicBytesB1...)
 		out = append(out, bver.VersionMagicBytesB1...)
-		out = append(out, cborText(b.primary)...)
 	} else {
 		out = append(out, bver.HeaderMagicBytesB2...)
 		out = append(out, bver.VersionMagicBytesB2...)
+	}
+	if b.magic != nil {
+		out = append([]byte{}, b.magic...)
+	}
+	if b.ver == bver.VersionB1 {
+		out = append(out, cborText(b.primary)...)
 	}
 	tc := uint64(2 * len(order))
 	if b.tableCount != nil {
@@ -662,6 +687,91 @@ func genC05(r *Rng, tier string) []Case {
 					off += c.entries[k].locs[0][1]
 				}
 				read(c.build())
+			}
+			// the :status pseudo header twice / another pseudo header beside it
+			for _, dup := range [][][2]string{{{":status", "201"}}, {{":status", "200"}}, {{":path", "/"}}, {{":status", "200"}, {"x-a", "1"}, {"x-a", "2"}}} {
+				c := clone()
+				c.items[0] = respItem("200", dup, []byte("x"))
+				c.entries[0].locs[0][1] = uint64(len(c.items[0]))
+				off := c.entries[0].locs[0][0] + uint64(len(c.items[0]))
+				for k := 1; k < len(c.entries); k++ {
+					c.entries[k].locs[0][0] = off
+					off += c.entries[k].locs[0][1]
+				}
+				read(c.build())
+			}
+			// header and version magic that do not belong together, unknown version magic
+			{
+				h1, v1, h2, v2 := bver.HeaderMagicBytesB1, bver.VersionMagicBytesB1, bver.HeaderMagicBytesB2, bver.VersionMagicBytesB2
+				cat := func(a, b []byte) []byte { return append(append([]byte{}, a...), b...) }
+				for _, m := range [][]byte{cat(h1, v2), cat(h2, v1), cat(h1, []byte{0x44, 'b', '3', 0, 0}), cat(h2, []byte{0x44, 'b', '2', 0, 1}), cat(h1, v1[:3]), cat(h2[:5], v2)} {
+					c := clone()
+					c.magic = m
+					read(c.build())
+				}
+			}
+			// b1: a variants-value with the right count but locations that are short, cut in the middle of a
+			// pair, of the wrong type, or out of range - for the first and for the last index entry
+			if ver == bver.VersionB1 {
+				for _, ei := range []int{0, len(base.entries) - 1} {
+					l0 := base.entries[ei].locs[0]
+					for _, t := range []struct {
+						locs [][2]uint64
+						tail []byte
+					}{
+						{[][2]uint64{l0}, nil}, {[][2]uint64{l0}, cborUint(l0[0])}, {nil, nil}, {nil, cborUint(l0[0])},
+						{[][2]uint64{l0}, append(cborUint(l0[0]), cborText("x")...)}, {[][2]uint64{l0}, append(cborText("x"), cborUint(1)...)},
+						{[][2]uint64{l0, {respLen, 1}}, nil}, {[][2]uint64{l0, {l0[0], respLen + 1}}, nil}, {[][2]uint64{{1 << 63, 1 << 63}, l0}, nil},
+						{[][2]uint64{l0, l0}, cborUint(7)},
+					} {
+						c := clone()
+						c.entries[ei].variants = []byte("A;x;y")
+						c.entries[ei].locs = t.locs
+						c.entries[ei].tail = t.tail
+						c.entries[ei].count = u64p(5)
+						read(c.build())
+					}
+				}
+			}
+			// a signatures section cut at every byte, with the wrong map size, wrong value types
+			{
+				good := append([]byte{0x82, 0x80, 0x81, 0xa3}, append(append(append(cborText("authority"), 0x00), append(cborText("sig"), 0x41, 0x01)...), append(cborText("signed"), 0x41, 0x02)...)...)
+				for cut := 0; cut < len(good); cut++ {
+					c := clone()
+					c.extra = []bbSection{{name: "signatures", body: good[:cut]}}
+					read(c.build())
+				}
+				for _, p := range []struct {
+					at int
+					b  byte
+				}{{3, 0xa2}, {3, 0xa4}, {3, 0x83}, {2, 0x82}, {1, 0x81}, {0, 0x81}, {0, 0xa2}, {14, 0x20}, {14, 0x40}, {19, 0x61}, {28, 0x61}, {4, 0x49}} {
+					if p.at < len(good) {
+						m := append([]byte{}, good...)
+						m[p.at] = p.b
+						c := clone()
+						c.extra = []bbSection{{name: "signatures", body: m}}
+						read(c.build())
+					}
+				}
+			}
+			// primary / manifest URLs that net/url refuses, of the wrong CBOR type, with bytes after them
+			for _, s := range []bbSection{
+				{name: "primary", body: cborText("https://example.com/%zz")}, {name: "primary", body: cborText("https://exa mple.com/")}, {name: "primary", body: cborText(":")},
+				{name: "primary", body: cborText("https://example.com/\x7f")}, {name: "primary", body: append(cborText("https://example.com/"), 0x00)}, {name: "primary", body: cborUint(1)},
+				{name: "manifest", body: cborText("https://example.com/%zz")}, {name: "manifest", body: cborText("https://exa mple.com/m")}, {name: "manifest", body: cborBytes([]byte("https://example.com/m"))},
+				{name: "manifest", body: []byte{}}, {name: "manifest", body: cborUint(0)}, {name: "manifest", body: append(cborText("https://example.com/m"), 0x00)},
+				{name: "manifest", body: cborText("https://example.com/m#f")}, {name: "manifest", body: cborText("https://u:p@example.com/m")},
+			} {
+				c := clone()
+				c.extra = []bbSection{s}
+				read(c.build())
+			}
+			if ver == bver.VersionB1 { // the fallback URL in the b1 header
+				for _, p := range []string{"https://example.com/%zz", "https://exa mple.com/", ":", "", "rel", "https://example.com/\x01"} {
+					c := clone()
+					c.primary = p
+					read(c.build())
+				}
 			}
 			// a signatures section whose authority map has no "cert" entry (or only ocsp / sct)
 			for _, auth := range [][]byte{{0xa0}, append([]byte{0xa1}, append(cborText("ocsp"), cborBytes([]byte("o"))...)...),
